@@ -87,6 +87,38 @@ impl UserFunction for Stamp {
     }
 }
 
+/// a function that, while the gate is closed, never completes (the evaluation calling it stays parked until it is
+/// cancelled) or panics; with the gate open it returns its argument
+struct Park {
+    gate: Arc<std::sync::atomic::AtomicU8>,
+    parked: Arc<AtomicUsize>,
+}
+
+#[async_trait]
+impl UserFunction for Park {
+    async fn call(&self, params: Value) -> FunctionResult {
+        match self.gate.load(Ordering::SeqCst) {
+            1 => {
+                self.parked.fetch_add(1, Ordering::SeqCst);
+                std::future::pending::<()>().await;
+            }
+            2 => {
+                self.parked.fetch_add(1, Ordering::SeqCst);
+                tokio::task::yield_now().await;
+                panic!("user function panics inside a spawned evaluation");
+            }
+            _ => tokio::task::yield_now().await,
+        }
+        Ok(params)
+    }
+    fn name(&self) -> &'static str {
+        "park"
+    }
+    fn cacheable(&self) -> bool {
+        false
+    }
+}
+
 /// None = consistent; Some(description) otherwise
 fn stamp_inconsistency(os: &Result<Vec<reval::ruleset::Outcome>, reval::Error>) -> Option<String> {
     let os = match os {
@@ -308,6 +340,112 @@ fn main() {
                     }
                     Err(_) => mismatches.push("12 threads serializing deep inputs at once: a thread panicked".to_string()),
                 }
+            }
+        }
+    }
+    // (5) evaluations that never complete — cancelled while parked in a user function, or unwinding from a panicking
+    //     user function inside a spawned task — next to and before evaluations that do: the ones that complete return what
+    //     they return one after another (an impure cacheable function: every evaluation draws its own fresh ticket, and
+    //     sees only that one)
+    {
+        let next = Arc::new(AtomicUsize::new(0));
+        let gate = Arc::new(std::sync::atomic::AtomicU8::new(0));
+        let parked = Arc::new(AtomicUsize::new(0));
+        let rs5 = Arc::new(
+            ruleset()
+                .with_rule(Rule::parse("// s0\n[stamp(x), nc(x), stamp(x)]").unwrap())
+                .unwrap()
+                .with_rule(Rule::parse("// s1\nstamp(x)").unwrap())
+                .unwrap()
+                .with_rule(Rule::parse("// p\npark(x)").unwrap())
+                .unwrap()
+                .with_rule(Rule::parse("// s2\nstamp(x)").unwrap())
+                .unwrap()
+                .with_function(Stamp { next: next.clone() })
+                .unwrap()
+                .with_function(Slow { name: "nc", calls: calls.clone(), cacheable: false })
+                .unwrap()
+                .with_function(Park { gate: gate.clone(), parked: parked.clone() })
+                .unwrap()
+                .build(),
+        );
+        let ticket_of = |os: &Result<Vec<reval::ruleset::Outcome>, reval::Error>| -> Option<i128> {
+            match os.as_ref().ok()?.get(1).map(|o| &o.value) {
+                Some(Ok(Value::Int(t))) => Some(*t),
+                _ => None,
+            }
+        };
+        for round in 0..(if quick { 6 } else { 40 }) {
+            let mode = if round % 2 == 0 { 1u8 } else { 2u8 };
+            gate.store(mode, Ordering::SeqCst);
+            parked.store(0, Ordering::SeqCst);
+            let n = 8;
+            let doomed: Vec<_> = (0..n)
+                .map(|t| {
+                    let rs5 = rs5.clone();
+                    let inp = inputs[t % 2].clone();
+                    rt.spawn(async move {
+                        let _ = rs5.evaluate(&inp).await;
+                    })
+                })
+                .collect();
+            let t0 = std::time::Instant::now();
+            while parked.load(Ordering::SeqCst) < n && t0.elapsed().as_secs() < 10 {
+                std::thread::sleep(std::time::Duration::from_millis(1));
+            }
+            // a few healthy evaluations are in flight while the doomed ones are cancelled / unwinding
+            gate.store(0, Ordering::SeqCst);
+            let floor = next.load(Ordering::SeqCst) as i128;
+            let healthy: Vec<_> = (0..n)
+                .map(|t| {
+                    let rs5 = rs5.clone();
+                    let inp = inputs[t % 2].clone();
+                    rt.spawn(async move {
+                        let os = rs5.evaluate(&inp).await;
+                        (stamp_inconsistency(&os), os.as_ref().ok().and_then(|v| v.get(1).and_then(|o| o.value.as_ref().ok().cloned())), os.as_ref().ok().and_then(|v| v.get(3).and_then(|o| o.value.as_ref().ok().cloned())))
+                    })
+                })
+                .collect();
+            for h in &doomed {
+                h.abort();
+            }
+            for h in doomed {
+                let _ = rt.block_on(h);
+            }
+            let mut seen = std::collections::BTreeSet::new();
+            let what = if mode == 1 { "cancelled while parked in a user function" } else { "unwinding from a panicking user function" };
+            let mut check = |why: Option<String>, t1: Option<Value>, t2: Option<Value>, when: &str, mismatches: &mut Vec<String>| {
+                if let Some(w) = why {
+                    mismatches.push(format!("evaluations {} ({}): {}", when, what, w));
+                    return;
+                }
+                match (t1, t2) {
+                    (Some(Value::Int(a)), Some(Value::Int(b))) => {
+                        if a != b {
+                            mismatches.push(format!("evaluations {} ({}): the rules before and after park(x) saw different tickets {} / {}", when, what, a, b));
+                        } else if a < floor {
+                            mismatches.push(format!("evaluations {} ({}): stamp(x) = {}, a ticket drawn before this evaluation started (tickets from {} on were free): a result cached by an evaluation that never completed", when, what, a, floor));
+                        } else if !seen.insert(a) {
+                            mismatches.push(format!("evaluations {} ({}): two evaluations saw the same ticket {}", when, what, a));
+                        }
+                    }
+                    other => mismatches.push(format!("evaluations {} ({}): unexpected outcomes {:?}", when, what, other)),
+                }
+            };
+            for h in healthy {
+                runs += 1;
+                match rt.block_on(h) {
+                    Ok((why, t1, t2)) => check(why, t1, t2, "in flight next to ones that never complete", &mut mismatches),
+                    Err(e) => mismatches.push(format!("a healthy spawned evaluation panicked ({})", e)),
+                }
+            }
+            // … and afterwards, from this thread
+            for t in 0..4 {
+                runs += 1;
+                let os = rt1.block_on(rs5.evaluate(&inputs[t % 2]));
+                let t1 = ticket_of(&os).map(Value::Int);
+                let t2 = os.as_ref().ok().and_then(|v| v.get(3).and_then(|o| o.value.as_ref().ok().cloned()));
+                check(stamp_inconsistency(&os), t1, t2, "after ones that never completed", &mut mismatches);
             }
         }
     }
